@@ -329,7 +329,7 @@ def run_c08(run_, rng, tier):
     mism = []
     for i, (s, r, ml) in enumerate(zip(scns, results, model)):
         mc, _, _ = l2.model_canon(ml)
-        if not r.get("timed_out") and not s.get("abs_paths") and not s.get("no_model") and mc != l2.impl_line(r):
+        if not r.get("timed_out") and not s.get("abs_paths") and not s.get("no_model") and not nul_in_names(s) and mc != l2.impl_line(r):
             mism.append((i, "L2", dict(scenario=describe(s), model=mc[:1500], impl_line=l2.impl_line(r)[:1500], stdout=r["stdout"].decode("latin-1")[-500:], stderr=r["stderr"].decode("latin-1")[-300:])))
     return bad, mism
 
